@@ -113,6 +113,7 @@ def compile_actor(sig: dict, rec: list, ret: list, ret_ann: Optional[str] = None
     from pydantic import Field
 
     ns: dict = {"MessageDependency": MessageDependency, "Depends": Depends, "Annotated": Annotated, "Optional": Optional, "Field": Field,
+                "Report": _report_model(),
                 "REC": rec, "RET": ret, "provider": provider}
     src = source(sig, ret_ann=ret_ann)
     exec(compile(src, "<generated-actor>", "exec"), ns)  # noqa: S102
@@ -317,7 +318,23 @@ def run_diff(case: dict) -> Outcome:
 
 # ----------------------------------------------------------------------------- outputs
 
+def _report_model():
+    from pydantic import BaseModel
+
+    class Report(BaseModel):
+        count: int
+        owner: Optional[str]  # required, may be None
+        note: Optional[str] = "n/a"  # optional with a non-None default: an explicit None is not the default
+
+    return Report
+
+
+_REPORT = st.fixed_dictionaries({"count": st.integers(0, 9), "owner": st.one_of(st.none(), st.text("ab", max_size=3)),
+                                 "note": st.one_of(st.none(), st.just("n/a"), st.text("xy", max_size=3))})
+
 RET_ANN = {
+    "Report": _REPORT,
+    "list[Report]": st.lists(_REPORT, max_size=3),
     None: st.one_of(st.none(), st.integers(-5, 5), st.text("ab", max_size=3), st.lists(st.integers(0, 3), max_size=2),
                     st.dictionaries(st.text("k", min_size=1, max_size=2), st.integers(0, 3), max_size=2)),
     "int": st.integers(-1000, 1000), "str": st.text("abc é", max_size=5), "bool": st.booleans(),
@@ -339,6 +356,25 @@ def run_output(case: dict) -> Outcome:
 
     out = Outcome()
     fn, src = compile_actor({"params": [], "var_args": False, "var_kwargs": False, "deps": []}, [], [case["value"]], ret_ann=case["ann"])
+    if case["ann"] in ("Report", "list[Report]"):
+        # the actor returns model instances; what it returned, as JSON, is the generated dict (None fields included)
+        Report = fn.__globals__["Report"]
+        returned = Report(**case["value"]) if case["ann"] == "Report" else [Report(**v) for v in case["value"]]
+        try:
+            conv = {"basic": BasicConverter, "pydantic": PydanticConverter}[case["converter"]](fn)
+            back = json.loads(conv.convert_outputs(returned))
+        except Exception as e:  # noqa: BLE001
+            if case["converter"] == "pydantic":
+                out.v("output-raises", f"[pydantic] return annotation {case['ann']}, value {case['value']!r}: {type(e).__name__}: {e}")
+            else:
+                out.inconclusive = True  # (the basic converter is not required to encode models)
+            return out
+        if back != case["value"]:
+            out.v("output-roundtrip", f"[{case['converter']}] return annotation {case['ann']}: the actor returned {case['value']!r}, the encoded "
+                  f"result decodes to {back!r}")
+        out.nontrivial = True
+        out.cls("conv-" + case["converter"], f"ann-{case['ann']}")
+        return out
     try:
         conv = {"basic": BasicConverter, "pydantic": PydanticConverter}[case["converter"]](fn)
     except Exception as e:  # noqa: BLE001
